@@ -43,7 +43,13 @@ static unsigned char g_static[PAD + 4200 + 16 + PAD] __attribute__((aligned(16))
     }
 VICTIMS(0) VICTIMS(1) VICTIMS(2) VICTIMS(3) VICTIMS(4) VICTIMS(5) VICTIMS(6) VICTIMS(7)
 
+/* large requests (above 65535 elements): a static buffer, the erase call is the last use */
+#define BIGCAP (1u << 20)
+static unsigned char g_big[PAD + BIGCAP + 16 + PAD] __attribute__((aligned(16)));
+#define BIGV(kind) NI void v_big_##kind(size_t n, size_t off, int val) { unsigned char *p = g_big + PAD + off; fill_secret(p, n, kind == 6); ERASE_CALL(kind, p, n, val) }
+BIGV(0) BIGV(1) BIGV(2) BIGV(3) BIGV(4) BIGV(5) BIGV(7)
 typedef void (*victim_fn)(size_t, size_t, int);
+victim_fn g_big_victims[8] = {v_big_0, v_big_1, v_big_2, v_big_3, v_big_4, v_big_5, 0, v_big_7};
 victim_fn g_victims[8][3] = {
     {v_stack_0, v_heap_0, v_static_0}, {v_stack_1, v_heap_1, v_static_1}, {v_stack_2, v_heap_2, v_static_2}, {v_stack_3, v_heap_3, v_static_3},
     {v_stack_4, v_heap_4, v_static_4}, {v_stack_5, v_heap_5, v_static_5}, {v_stack_6, v_heap_6, v_static_6}, {v_stack_7, v_heap_7, v_static_7} };
